@@ -185,7 +185,7 @@ func (c *Ctx) evalBuiltin(name string, x *ast.CallExpr, s *State) Value {
 				cp = asInt(c.eval(x.Args[2], s))
 			}
 			if c.checkPanics {
-				c.oblige(s, "make", c.text(x), x.Pos(), and(le("0", n), le(n, cp), le(cp, maxLen)), c.panicTags)
+				c.oblige(s, "make", c.text(x), x.Pos(), and(le("0", n), le(n, cp), le(cp, "281474976710656")), c.panicTags)
 			}
 			c.atClauses(s, fmt.Sprintf("make %d", c.callOrd[x]), x.Pos())
 			return c.allocSlice(s, u.Elem(), n, cp, true)
